@@ -435,6 +435,10 @@ func (c *config) Clear() {
 	config.backends = c.backends
 	config.backends.Clear()
 
+	// copying acme storages state, so storages that are not declared anymore
+	// can be removed from the acme queue when a full reconciliation happens
+	config.acmeData = c.acmeData.Clear()
+
 	*c = *config
 }
 
